@@ -61,6 +61,7 @@ E_SCOPES = ("src/sqlfluff/rules/", "src/sqlfluff/utils/")
 E_EXCLUDE = ("src/sqlfluff/utils/testing/",)
 
 _SHRINK = {"pop", "remove", "clear", "popleft", "popitem"}
+_IMPURE = {"next", "pop", "popleft", "popitem", "read", "readline", "readlines", "get_nowait", "send", "recv"}
 _CATCH = {"IndexError", "LookupError", "Exception", "BaseException"}
 
 
@@ -442,19 +443,37 @@ def _local_facts(site: ast.AST, stop: ast.AST) -> List[Fact]:
     return out
 
 
+def _through_flag(cfg, e: ast.AST, truth: bool, at, kind: str) -> List[Fact]:
+    """``ok = X and len(X) > 1`` ... ``if ok:``: a tested plain local that holds a condition
+    (single reaching definition) stands for that condition, evaluated where it was assigned."""
+    if not isinstance(e, ast.Name):
+        return []
+    ds = cfg.reaching().IN.get(at, {}).get(e.id, set())
+    if len(ds) != 1:
+        return []
+    (d,) = ds
+    if d.kind != "assign" or d.path or d.stmt is None or not isinstance(d.value, (ast.Compare, ast.BoolOp, ast.UnaryOp)):
+        return []
+    return [Fact(e2, t2, d.stmt, kind) for e2, t2 in atoms(d.value, truth)]
+
+
 def _flow_facts(cfg, st) -> List[Fact]:
     out: List[Fact] = []
     if st is None:
         return out
     dom = cfg.dominators().get(st, set())
     for g in dom:
+        got: List[Fact] = []
         if isinstance(g, Branch):
             if isinstance(g.stmt, (ast.If, ast.While)):
-                out += [Fact(e, t, g.stmt, "branch") for e, t in atoms(g.stmt.test, g.polarity)]
+                got = [Fact(e, t, g.stmt, "branch") for e, t in atoms(g.stmt.test, g.polarity)]
             elif isinstance(g.stmt, (ast.For, ast.AsyncFor)) and g.polarity:
                 out.append(Fact(_iter_collection(g.stmt.iter), True, g.stmt, "for-loop"))
         elif isinstance(g, ast.Assert) and g is not st:
-            out += [Fact(e, t, g, "assert") for e, t in atoms(g.test, True)]
+            got = [Fact(e, t, g, "assert") for e, t in atoms(g.test, True)]
+        for fa in got:
+            out.append(fa)
+            out += _through_flag(cfg, fa.expr, fa.truth, fa.guard, fa.kind)
     return out
 
 
@@ -522,7 +541,7 @@ _NEG = {ast.Lt: ast.GtE, ast.LtE: ast.Gt, ast.Gt: ast.LtE, ast.GtE: ast.Lt, ast.
 _SWAP = {ast.Lt: ast.Gt, ast.LtE: ast.GtE, ast.Gt: ast.Lt, ast.GtE: ast.LtE, ast.Eq: ast.Eq, ast.NotEq: ast.NotEq}
 
 
-_PRESERVING = {"children", "first", "last", "select", "reversed", "recursive_crawl", "iterate_segments", "get", "any"}
+_PRESERVING = {"children", "first", "last", "select", "reversed", "recursive_crawl", "get", "any"}
 
 
 def _chain_root(e: ast.AST) -> Optional[ast.AST]:
@@ -531,6 +550,8 @@ def _chain_root(e: ast.AST) -> Optional[ast.AST]:
     seen = False
     while True:
         if isinstance(e, ast.Call) and isinstance(e.func, ast.Attribute) and e.func.attr in _PRESERVING:
+            if e.func.attr == "get" and any(k.arg in ("default", None) for k in e.keywords):
+                break  # get(default=x) may be truthy for an empty receiver
             e, seen = e.func.value, True
         else:
             break
@@ -645,6 +666,9 @@ def _implied_min(cfg, fact: Fact, is_recv, fact_at, is_recv_at=None) -> int:
             return 1 if c == 0 else 0
         return 0
     return 0
+
+
+_KIND_RANK = {"branch": 0, "for-loop": 1, "short-circuit": 2, "conditional-expression": 3, "comprehension": 4, "mapped-equality": 5, "split-membership": 6, "derived": 7, "assert": 8}
 
 
 def _mutated_between(cx: Ctx, cfg, f, recv_text: str, guard, site_stmt) -> bool:
@@ -843,7 +867,9 @@ def judge(cx: Ctx, s: ast.Subscript, m) -> Tuple[Optional[str], str]:
     if st is not None and lam is None:
         facts += _flow_facts(cfg, st)
     rtext = norm(recv)
-    best, how = 0, None
+    best, how, how_rank = 0, None, (99, 9)
+    if any(isinstance(c, ast.Call) and last_attr(c) in _IMPURE for c in ast.walk(recv)):
+        facts = []  # evaluating the receiver again need not give the tested value
     for fa in facts:
         g = fa.guard
 
@@ -875,10 +901,12 @@ def judge(cx: Ctx, s: ast.Subscript, m) -> Tuple[Optional[str], str]:
             continue
         if g is not None and _mutated_between(cx, cfg, f, rtext, g, st):
             continue
-        if v > best:
-            best, how = v, fa.kind
-            if best >= need:
-                break
+        # deterministic choice of the reported idiom: strongest kind first, then the longest bound
+        rank = (_KIND_RANK.get(fa.kind.split(":")[0], 9), 0 if v >= need else 1)
+        if v >= need and (how is None or best < need or rank < how_rank):
+            best, how, how_rank = max(best, v), fa.kind, rank
+        elif v > best and best < need:
+            best, how, how_rank = v, fa.kind, rank
     if best >= need:
         return how, f"len >= {best} known"
     # (2b) <ReflowBlock>.segments[0|-1]
